@@ -245,10 +245,30 @@ def _tuple(I, args, kwargs):
     return STuple(I.iterate(args[0]))
 
 
+@model(builtins.type, "type(x): the class of an object")
+def _type(I, args, kwargs):
+    if len(args) != 1:
+        raise Unsupported("type() with three arguments")
+    v = args[0]
+    if isinstance(v, SObj):
+        return v.cls
+    if isinstance(v, SV):
+        v = I.view(v)
+    for T, P in ((SStr, str), (SBool, bool), (SInt, int), (SFloat, float), (STuple, tuple), (SList, list), (SDict, dict),
+                 (SSet, set), (SSeq, list)):
+        if isinstance(v, T):
+            return P
+    if isinstance(v, (SOpaque, SFunc, _Tagged)):
+        raise Unsupported("type() of an opaque value")
+    return type(v)
+
+
 @model(builtins.set, "set(iterable) of hashable concrete elements")
 def _set(I, args, kwargs):
     if not args:
         return SSet()
+    if hasattr(args[0], "as_absset"):
+        return args[0].as_absset()
     return SSet([I.hashable(x) for x in I.iterate(args[0])])
 
 
